@@ -17,16 +17,16 @@ CHECKS = {
                 text="Exploration: as C01 for the group order n, plus Sum/Product over vectors with aliased/repeated entries and the greater-than-half-order test on the boundary family in every limb.",
                 ref="DESIGN.md section 5 C02"),
     "C03": dict(tech="runtime reference-model monitor: affine group law vs. library on arbitrary projective representatives (unchecked-constructor hook), pairwise sweep + drift histories, raw on-curve invariant after every step",
-                text="Exploration: pairwise sweep of a pool of abstract points (identity, +-kG, half-order neighbours, lambda images, special-coordinate points, random) in random projective representatives through Add/Subtract/Equal/Select/addComplete/addMixed/Double/Negate/observers in all alias patterns, an exceptional-relation monitor (P=Q, P=-Q, Q=2P, identity cases) and random-walk histories that reuse results without rescaling; after every step the raw coordinates must satisfy the projective curve equation and denote the model's point.",
+                text="Exploration: pairwise sweep of a pool of abstract points (identity, +-kG, half-order neighbours, lambda images, special-coordinate points, random) in random projective representatives through Add/Subtract/Equal/Select/addComplete/addMixed/Double/Negate/observers in all alias patterns, an exceptional-relation monitor (P=Q, P=-Q, Q=2P, identity cases) and random-walk histories that reuse results without rescaling; after every step the raw coordinates must satisfy the projective curve equation and denote the model's point. Also: near-equal pairs (same x, same y via the endomorphism, collinear with 8 small slopes) for the observers, Z values chosen by the shape of their stored Montgomery limbs, and operand sums steered into the carry windows of multiplication by small constants (stored x(P)+x(Q) just below j*2^256/k).",
                 ref="DESIGN.md section 5 C03"),
     "C04": dict(tech="invariant hook on splitGLV/mulGFlooredDiv (recomposition, 128-bit bound, exact rounded quotient against independently derived lattice constants) + reference-model monitor of all variable-base entry points",
                 text="Exploration: scalars are constructed on the rounding-bit boundary of k*g/2^384, on limb-carry boundaries of the rounded quotient and at the extreme magnitude of the split halves; the split must recompose and fit 128 bits after sign normalisation, and ScalarMult and the variable-time multiply must equal the model's s*P for points in arbitrary representatives with the receiver aliasing P.",
                 ref="DESIGN.md section 5 C04"),
     "C05": dict(tech="exhaustive table-entry monitor through a read hook (8160 + 480 entries vs. an oracle table built from G) + reference-model monitor of fixed-base multiplication on all single-byte scalars",
-                text="Exploration (table sub-claim exhaustive): every embedded table entry is compared with (j+1)*256^i*G computed independently; ScalarBaseMult, ScalarMult(s,G), the variable-time generator multiply and private-to-public key derivation are compared with the model for all 32x256 single-byte scalars, zero bytes/nibbles in every position, special values and random scalars, in both lookup implementations.",
+                text="Exploration (table sub-claim exhaustive): every embedded table entry is compared with (j+1)*256^i*G computed independently; ScalarBaseMult, ScalarMult(s,G), the variable-time generator multiply and private-to-public key derivation are compared with the model for all 32x256 single-byte scalars, zero bytes/nibbles in every position, special values and random scalars, in both lookup implementations. Also: a 32-bit build (GOARCH=386), cold-start children (each entry point as the first library call of a process), keys built through the scalar constructor and used by other API calls before the check.",
                 ref="DESIGN.md section 5 C05"),
     "C16": dict(tech="runtime reference-model monitor of MultiScalarMult[Vartime] and DoubleScalarMultBasepointVartime with structured inputs (cancelling pairs, duplicates, receiver among inputs)",
-                text="Exploration: list lengths 0..40 with zero scalars, identity points, duplicated and mutually inverse points/scalars, partial sums through the identity, the receiver appearing among the inputs (also several times) and non-trivial representatives; mismatched lengths must panic and leave the receiver intact.",
+                text="Exploration: list lengths 0..40 with zero scalars, identity points, duplicated and mutually inverse points/scalars, partial sums through the identity, the receiver appearing among the inputs (also several times) and non-trivial representatives; mismatched lengths must panic and leave the receiver intact. Also: list lengths 31..300 around powers of two, the generator repeated in a list, shorter calls after longer ones, cold-start children.",
                 ref="DESIGN.md section 5 C16"),
 }
 
